@@ -51,6 +51,8 @@ def main(chk):
         {'name': 'epi,epi,ecm / no coupling', 'cls': [0, 0, 1], 'coup': [], 'unused': (-1, 0)},
         {'name': 'epi,epi,ecm / one pair', 'cls': [0, 0, 1], 'coup': [(0, 1, 1, 2)], 'unused': (-1, 0)},
         {'name': 'epi,epi,static / two pairs + unused slot', 'cls': [0, 0, 4], 'coup': [(0, 1, 1, 2), (0, 3, 1, 0)], 'unused': (1, 3)},
+        # persistent ids ahead of the list positions (two cells removed earlier): ids 2,3,4 at positions 0,1,2
+        {'name': 'epi,epi,ecm / one pair / ids 2,3,4 at positions 0,1,2', 'cls': [0, 0, 1], 'coup': [(0, 1, 1, 2)], 'unused': (-1, 0), 'idoff': 2},
     ]
     if not quick:
         scen += [
@@ -68,7 +70,7 @@ def main(chk):
         for sidx, sce in enumerate(scen):
             if cm == 0 and sce['coup']: continue       # the spring model has no couplings
             nc = len(sce['cls'])
-            iin = [nc] + sce['cls'] + [len(sce['coup'])] + [v for c in sce['coup'] for v in c] + [2, sce['unused'][0], sce['unused'][1]]
+            iin = [nc] + sce['cls'] + [len(sce['coup'])] + [v for c in sce['coup'] for v in c] + [2, sce['unused'][0], sce['unused'][1], sce.get('idoff', 0)]
             # validation
             for k in range(3 if quick else 10):
                 din = [rng.uniform(0.001, 0.1), rng.uniform(0.1, 3)] + [rng.uniform(0.2, 2) for _ in range(2 * nc)] + [rng.uniform(-1, 1) for _ in range(nc * 4 * 9 + nc * 4 * 3)]
